@@ -103,6 +103,9 @@ def run_history(modes, ephs, balance, events):
             pubs[ev[1]].publish(ev[2], ev[3] if len(ev) > 3 else pubs[ev[1]].topics(ev[2]))
         elif ev[0] == 'close':          # the publisher goes away: its CLOSE message is queued behind whatever it has published
             pubs[ev[1]].queue.append([b'//', json.dumps({'sid': f'P{ev[1]}', 'mid': -3}).encode()])
+        elif ev[0] == 'drop':           # ('drop', k, i): the i-th waiting message of publisher k is lost on the way (PUB high-water mark, SUB socket still connecting)
+            if ev[2] < len(pubs[ev[1]].queue):
+                del pubs[ev[1]].queue[ev[2]]
         elif ev[0] == 'deliver':
             for _ in range(ev[2]):
                 if pubs[ev[1]].queue:
@@ -189,6 +192,27 @@ def scripted_restart(S):
         yield ev
 
 
+def scripted_lost(S):
+    """one topic message of an id is lost on the way while the rest of that id (and its closing topics message) arrives: the id must not be handed out with that
+    source's set short of a topic - the receiver waits, and moves on with the next id"""
+    for k in range(S):
+        for i in (0, 1):
+            ev = []
+            for j in range(S):
+                ev += [('pub', j, 0), ('deliver', j, 9)]
+            ev.append(('recv',))
+            for j in range(S):
+                ev.append(('pub', j, 1))
+            ev.append(('drop', k, i))
+            for j in range(S):
+                ev.append(('deliver', j, 9))
+            ev += [('recv',), ('recv',)]
+            for j in range(S):
+                ev += [('pub', j, 2), ('deliver', j, 9)]
+            ev += [('recv',), ('recv',)]
+            yield ev
+
+
 def random_history(rnd, S):
     ev, nxt = [], [0] * S
     for _ in range(rnd.randint(4, 14)):
@@ -245,7 +269,7 @@ def lost_frame_check():
 
 
 def search(modes, ephs, balance, n_random=3000, seed=0):
-    for ev in list(scripted(modes, ephs, balance)) + (list(scripted_held(len(modes))) if not balance and not any(ephs) else []) + (list(scripted_close(len(modes))) if not any(ephs) else []) + (list(scripted_restart(len(modes))) if not any(ephs) else []):
+    for ev in list(scripted(modes, ephs, balance)) + (list(scripted_held(len(modes))) if not balance and not any(ephs) else []) + (list(scripted_close(len(modes))) if not any(ephs) else []) + (list(scripted_restart(len(modes))) if not any(ephs) else []) + list(scripted_lost(len(modes))):
         bad, log = run_history(modes, ephs, balance, ev)
         if bad:
             return {'confirmed': True, 'history': [list(e) for e in ev], 'observed': bad, 'log': log}
